@@ -287,7 +287,7 @@ class C08(Prop):
     level_text = 'build_filtering_func is compared pointwise with the three-line spec over generated pattern lists and names, with permutation/duplication invariance and the two monotonicity laws; end to end the executed tests, imported modules and layers run of generated worlds must equal what the spec selects.'
     level_note = 'Trusts re.search as matcher; empty pattern lists (never fed by the runner) are not asserted.'
     rule = ('func: pattern lists from a small regex grammar (literals, anchors, alternation, repetition, empty, '
-            'duplicates, "!"-prefixed, "!" alone) x names as fed by the runner (test str, dotted module, layer '
+            'duplicates, "!"-prefixed, "!" alone, inline flags, groups with back-references, verbose mode, look-around) x names as fed by the runner (test str, dotted module, layer '
             'name); exhaustive over lists of <=3 patterns from a 12-pattern pool x negation masks. e2e: generated '
             'worlds run with -t/-m/--layer/legacy filters, executed tests/imported modules/layers vs. the spec. '
             'Non-trivial = at least one positive and one negated pattern, both matching some name (func) / '
